@@ -1,13 +1,19 @@
 """C02 — non-box constraints: no infeasible point is evaluated or returned."""
 from harness import runlevel as R, skel as S
 
-PROPS = "Props/C02.v"
-THEOREMS = ["C02_filter_feasible", "C02_no_infeasible_call", "C02_infeasible_start_rejected"]
+PROPS = ["Props/C02.v", "Props/C02src.v"]
+TRANSLATORS = ["filter"]
+THEOREMS = ["C02_filter_feasible", "C02_no_infeasible_call", "C02_infeasible_start_rejected",
+            # Props/C02src.v: the two feasibility checks of the starting point and their ORDER relative to snap / pull-back, regenerated from bads.py
+            "C02_start_checks_are_source"]
 LEVEL = "proof"
 RULE = ("real runs with non-box constraints (ball, half-space, thin band, coarse lattice feasible set) x boxes (linear, log) x noise modes compared with the skeleton model; "
         "the provenance premise of C02_no_infeasible_call evaluated in Coq on every run; independent monitor re-evaluates the user constraint on every target argument and on result.x; "
         "infeasible starting points (before / after mesh snapping) must be rejected with ValueError before any target call; non-trivial = the constraint removed at least one candidate")
 TRUSTED = ["Coq 8.16.1 kernel + vm_compute", "hand-written models Model/Skeleton.v, Model/Filter.v tied to the code by differential correspondence (C17 ties every filter call)",
+           "translate/filter.py (fail-closed) regenerates the ordered events of BADS.__init__ / _init_optim_state_ that touch the start, the constraint and the logger "
+           "(gen/Src_filter.v src_init_events / src_state_events); C02_start_checks_are_source pins them and proves what they do; the events are replayed in Python "
+           "against the arguments the real constructor passes to the constraint function (correspondence:start_checks_source)",
            "the constraint function is an arbitrary deterministic function of the point; feasibility is judged at inverse_transf(u), the same expression the logger uses"]
 ASSUMPTIONS = ["deterministic constraint function"]
 
@@ -43,7 +49,7 @@ def removed_some(tr, P):
     return any(e[0] == "filter" and e[10] and len(e[8]) < len(e[3]) for e in tr.get("events", []))
 
 
-def infeasible_starts(ctx):
+def infeasible_starts(ctx, boost=1):
     """constructor must reject an infeasible x0 (and one that becomes infeasible after mesh snapping) before any target call"""
     import logging
     import numpy as np
@@ -75,7 +81,7 @@ def infeasible_starts(ctx):
     # numbers) with x0 within a few search-mesh steps of the boundary on either side, linear and log boxes.  Property, both
     # directions: cons(x0) > 0  ==>  ValueError and no target call;  accepted  ==>  the mesh-snapped start is feasible.
     rng = ctx.rng
-    for i in range(120 if ctx.quick else 1200):
+    for i in range((120 if ctx.quick else 1200) * boost):
         D = rng.choice([1, 2, 3])
         t = rng.uniform(-1.5, 1.5)
         scale = rng.choice([1.0, 1.0, 1e-9, 1e3])
@@ -121,7 +127,7 @@ def infeasible_starts(ctx):
     # edge stream: the start within a fraction of a (coarse) search-mesh step of a HARD bound that is not a mesh node, so that snapping
     # leaves the box and the point is pulled back one step; feasible sets that hug the bound (thin slab / ring).  Accepted ==> the point
     # the optimiser will evaluate first is feasible.
-    for i in range(60 if ctx.quick else 600):
+    for i in range((60 if ctx.quick else 600) * boost):
         D = rng.choice([1, 2, 2, 3])
         sgn = rng.choice([2, 3, 4])
         side = rng.choice([1.0, -1.0])
@@ -207,7 +213,84 @@ def sequential_constraints(ctx):
     return len(seq), bad
 
 
+def start_checks_source(ctx, broken):
+    """Translator validation: the event lists regenerated from bads.py, interpreted in Python on the real grid arithmetic, must predict
+    the exact arguments the real constructor passes to the constraint function (x0 first, then the image of the snapped AND pulled-back
+    start) and the start it stores - on constructions where the pull-back moves the start."""
+    import logging
+    import numpy as np
+    from translate import filter as TF
+    try:
+        ie, se = TF.load_start()
+    except Exception as ex:   # noqa: BLE001
+        ctx.oblige("correspondence:start_checks_source", "correspondence", False, f"NOT EVALUATED: {ex!r}")
+        broken.append(("correspondence:start_checks_source", f"the start checks of bads.py are outside the translator's whitelist: {ex!r}"))
+        return
+    from pybads import BADS
+    from pybads.search.grid_functions import force_to_grid, grid_units
+    logging.disable(logging.CRITICAL)
+    rng = ctx.rng
+    n = pulled = 0
+    bad = []
+    for i in range(40 if ctx.quick else 300):
+        D = rng.choice([1, 2, 3])
+        sgn = rng.choice([2, 3, 4])
+        step = 2.0 ** -sgn
+        m = int(round(rng.choice([1.0, 1.25, 1.5, 2.0]) / step))
+        hb = (m + rng.uniform(0.55, 0.95)) * step
+        side = rng.choice([1.0, -1.0])
+        x0 = np.array([rng.uniform(-0.3, 0.3) for _ in range(D)])
+        if i % 4:
+            x0[0] = side * rng.uniform((m + 0.5) * step + 1e-3, hb * (1 - 2.5e-3))     # snaps outside the box, is pulled back
+        args = []
+        cons = lambda X, args=args: (args.append(np.array(X, dtype=float).copy()), -np.ones(np.atleast_2d(X).shape[0]))[1]  # noqa: E731
+        try:
+            b = BADS(lambda x: 0.0, x0.copy(), np.full(D, -hb), np.full(D, hb), np.full(D, -1.0), np.full(D, 1.0), non_box_cons=cons,
+                     options=dict(display="off", search_grid_number=sgn))
+        except Exception as ex:   # noqa: BLE001
+            bad.append((x0.tolist(), hb, "constructor raised " + type(ex).__name__))
+            continue
+        args = args[-2:] if len(args) >= 2 else args     # _bounds_check_ may evaluate the constraint too: the two checks are the LAST two calls
+        sms = b.optim_state["search_mesh_size"]
+        pred, u, stored = [], None, None
+        for e in ie:
+            if e.startswith("EvConsCheck ArgX0"):
+                pred.append(np.atleast_2d(b.x0))
+            elif e == "EvInitState":
+                for f in se:
+                    if f == "EvSnap":
+                        u = force_to_grid(grid_units(b.x0, b.var_transf, b.optim_state["scale"]), sms)
+                        raw = u.copy()
+                    elif f == "EvPullLow":
+                        u = u.copy(); u[u < b.lower_bounds] = u[u < b.lower_bounds] + sms
+                    elif f == "EvPullHigh":
+                        u = u.copy(); u[u > b.upper_bounds] = u[u > b.upper_bounds] - sms
+                    elif f.startswith("EvConsCheck ArgInvU0"):
+                        pred.append(b.var_transf.inverse_transf(u))
+                    elif f.startswith("EvConsCheck ArgX0"):
+                        pred.append(np.atleast_2d(b.x0))
+                    elif f == "EvStoreU":
+                        stored = u.copy()
+        n += 1
+        moved = u is not None and not np.array_equal(raw, u)
+        pulled += 1 if moved else 0
+        okc = len(pred) == len(args) and all(np.array_equal(np.atleast_2d(a), np.atleast_2d(p)) for a, p in zip(args, pred))
+        oks = stored is not None and np.array_equal(np.atleast_2d(stored), np.atleast_2d(b.optim_state["u"]))
+        if not (okc and oks):
+            bad.append(dict(x0=x0.tolist(), hard=hb, search_grid_number=sgn, pulled_back=bool(moved),
+                            constraint_called_at=[np.atleast_2d(a).tolist() for a in args], events_predict=[np.atleast_2d(p).tolist() for p in pred],
+                            stored_start=np.atleast_2d(b.optim_state["u"]).tolist(), events_store=None if stored is None else stored.tolist()))
+    logging.disable(logging.NOTSET)
+    ctx.count(n, pulled)
+    ctx.coverage["start_checks_source"] = dict(constructions=n, start_moved_by_pull_back=pulled, init_events=ie, state_events=se)
+    if not ctx.oblige("correspondence:start_checks_source", "correspondence", not bad and pulled > 0,
+                      f"{len(bad)} of {n} constructions ({pulled} with a pulled-back start) disagree with the regenerated events; first: {bad[:1]}"):
+        broken.append(("correspondence:start_checks_source", "TRANSLATOR fault or changed source: the regenerated start events do not predict the points at which the "
+                       f"real constructor evaluates the constraint / the start it stores: {bad[:1]}"))
+
+
 def tie(ctx, broken):
+    start_checks_source(ctx, broken)
     ctx.extra_requires = ["PV.Model.Filter", "PV.Model.SkeletonBox"]
     out = R.tie_skeleton(ctx, broken, [(s, None) for s in specs_for(ctx)], "c02", extra_valid=R.provenance_expr)
     R.count_runs(ctx, out, removed_some)
@@ -226,6 +309,23 @@ def tie(ctx, broken):
 
 
 def search(ctx, broken):
+    # the start checks changed (translation / Props/C02src.v / the start-event tie broke): more constructions AIMED at them - starts within a few
+    # mesh steps of the constraint boundary on either side, starts that snap outside the box and are pulled back into a thin feasible slab
+    names = " ".join(n for n, _ in broken)
+    if any(k in names for k in ("translate:filter", "coq_build", "start_checks_source", "theorems_present")):
+        try:
+            from translate import filter as TF
+            defs, ex = TF.current()
+            why = f"translation stopped: {str(ex)[:200]}" if defs is None else "definitions differing from the reference translation: " + ", ".join(TF.diff(defs))
+        except Exception as ex2:   # noqa: BLE001
+            why = f"aim failed: {ex2!r}"
+        ctx.notes.append("search aimed at the start checks: " + why)
+        if "src_stage" not in why or "events" in why or "stopped" in why:
+            n, bad = infeasible_starts(ctx, boost=5)
+            if bad:
+                ctx.violate("infeasible-start-accepted", f"[search aimed at the start checks; {why[:200]}] infeasible starting point not rejected with ValueError "
+                            f"before the first target call: {bad}", dict(kind="construct", cases=bad))
+                return True
     if R.truncate_search(ctx, R.mon_c02):
         return True
     specs = [s for s in S.panel("thorough", ctx.seed + 43) if s.get("cons")][:40]
